@@ -169,6 +169,70 @@ def h_bsta1d(ctx, nl, nr, fa=False, lam_value=1):
     ctx.prove("C01.adapted_tree_1d.never_origin_or_outside", SymBool(z3.And(*[o == 0 for o in other])) if other else True, replay=rp)
 
 
+def h_factory_vector(ctx, nl, nr, method, lam_value=1):
+    """vector samplers built by the public factory on a 1-d chain: measure of every state increment x intensity == cell mass,
+    the origin (increment 0) and states outside the grid are never returned (C02 at chain level)"""
+    axis, h, pivot = sym_axis(ctx, nl, nr)
+    axis0 = list(axis)
+    grid = make_grid(h, pivot, [axis])
+    model = A.abs_levy_model(ctx, "nu", sigma=0.0, a=0.0, finite_activity=False, finite_variation=True)
+    nu = model.levy_triplet.nu
+    try:
+        proc = MC.MarkovChainProcess(model, SamplingMethod[method], grid)
+    except ZeroDivisionError:
+        raise PathAbort()
+    lam = proc.intensity_of_jumps
+    ctx.assume(EQ(lam, lam_value))
+    smp = proc.sampling
+    ax, piv = grid.axes[0], grid.origin_coordinate.value
+    cs = cells(ax, piv)
+    u = ctx.real("u", 0, 1, hi_strict=True)
+    if method == "BINARYSEARCHTREE":
+        draw = lambda: int(smp.sample_with_u(u))
+    elif method == "ALIAS":
+        draw = lambda: int(smp.states(int(smp._draw_with_u(u))))
+    else:
+        raise ValueError(method)
+    leaves = ctx.enumerate(draw)
+    rp = (replay_factory_vector, lambda m: {"nl": nl, "nr": nr, "method": method})
+    for cons, val, exc in leaves:
+        if exc is not None:
+            ctx.prove("C01.factory_vector.sampling_does_not_raise", False, info={"raised": repr(exc)[:200]}, replay=rp)
+            return
+    meas = M.state_measures(leaves, V.to_term(u))
+    for k, (lo, hi) in cs.items():
+        want = cell_mass_term(nu, k, piv, lo, hi)
+        got = meas.get(k - piv, z3.RealVal(0))
+        ctx.prove("C01.factory_vector.measure_times_intensity_is_cell_mass", SymBool(got * V.term_of(lam) == want), info={"state": k, "method": method}, replay=rp)
+    other = [v for k, v in meas.items() if not (isinstance(k, int) and (k + piv) in cs)]
+    ctx.prove("C01.factory_vector.never_origin_or_outside", SymBool(z3.And(*[o == 0 for o in other])) if other else True, info={"method": method}, replay=rp)
+
+
+def replay_factory_vector(sc):
+    nl, nr, method = sc["nl"], sc["nr"], sc["method"]
+    details = []
+    axis = _canon_axis(nl, nr)
+    for name, model in concrete_models().items():
+        grid = GS.CTMCGrid(h=float(axis[nl + 1]), origin_coordinate=nl, axes=[axis.copy()])
+        proc = MC.MarkovChainProcess(model, SamplingMethod[method], grid)
+        smp = proc.sampling
+        ax, piv = grid.axes[0], grid.origin_coordinate.value
+        n = 20000
+        cnt = {}
+        for j in range(n):
+            uu = (j + 0.5) / n
+            k = int(smp.sample_with_u(uu)) if method == "BINARYSEARCHTREE" else int(smp.states(int(smp._draw_with_u(uu))))
+            cnt[k] = cnt.get(k, 0) + 1
+        for k, (lo, hi) in cells(ax, piv).items():
+            want = quad_mass(model.levy_triplet.nu, float(lo), float(hi)) / proc.intensity_of_jumps
+            got = cnt.get(k - piv, 0) / n
+            if abs(got - want) > 2e-3:
+                details.append(f"{name}: {method} via the factory sends measure {got:.4f} of uniforms to state {k}, target probability {want:.4f}")
+        if cnt.get(0, 0):
+            details.append(f"{name}: {method}: the origin is sampled")
+    return bool(details), "; ".join(details[:3]) if details else "measures equal probabilities on HEM/CGMY"
+
+
 def replay_bsta1d(sc):
     nl, nr = sc["nl"], sc["nr"]
     details = []
@@ -337,6 +401,9 @@ def harnesses(tier):
     for nl, nr in ([(1, 2), (2, 2)] if q else [(1, 2), (2, 1), (2, 2), (3, 2), (3, 3)]):
         for lv in (1, Fraction(3, 2)):
             hs.append(Harness(f"bsta1d.{nl}.{nr}.lam{lv}", h_bsta1d, {"nl": nl, "nr": nr, "lam_value": lv}, max_paths=4000))
+    for nl, nr, method in ([(1, 1, "BINARYSEARCHTREE"), (2, 1, "BINARYSEARCHTREE"), (1, 1, "ALIAS")] if q else
+                           [(1, 1, "BINARYSEARCHTREE"), (2, 1, "BINARYSEARCHTREE"), (2, 2, "BINARYSEARCHTREE"), (1, 1, "ALIAS"), (1, 2, "ALIAS")]):
+        hs.append(Harness(f"factory.{method}.{nl}.{nr}", h_factory_vector, {"nl": nl, "nr": nr, "method": method}, max_paths=6000))
     hs.append(Harness("copula.2d.1", h_copula, {"d": 2, "npts": 1}, max_paths=4000))
     if not q:
         hs.append(Harness("copula.2d.2", h_copula, {"d": 2, "npts": 2}, max_paths=20000))
@@ -347,7 +414,7 @@ def harnesses(tier):
 
 EXPECT = ["C01.rate_is_cell_mass.1d", "C01.sum_of_rates_is_intensity.1d", "C01.cells_tile_without_gap_or_overlap.1d", "C01.state_inside_its_cell.1d",
           "C01.inversion_probability_times_intensity_is_cell_mass.1d", "C01.adapted_tree_1d.measure_times_intensity_is_cell_mass",
-          "C01.rate_is_cell_mass.2d", "C01.sum_of_rates_is_intensity.2d"]
+          "C01.rate_is_cell_mass.2d", "C01.sum_of_rates_is_intensity.2d", "C01.factory_vector.measure_times_intensity_is_cell_mass"]
 
 
 def main(tier):
